@@ -21,6 +21,7 @@ import itertools
 import os
 import shutil
 import tempfile
+import time
 
 from harness import detsched as ds
 
@@ -52,7 +53,7 @@ class Env:
 
 
 ENV: Env | None = None
-RELEASE_YIELD = False     # True once Observer.v models the unlocked read of _last_item as a step of its own
+RELEASE_YIELD = True      # Observer.v models the unlocked read of _last_item in stop() as a step of its own (IMarker)
 
 
 def who():
@@ -319,6 +320,18 @@ def run_program(prog, chooser, max_steps=6000):
             otd()
 
         q._put, q._get, q.task_done = _put, _get, task_done
+        if hasattr(q, "_last_item"):
+            opub = q.put
+
+            def put(item, block=True, timeout=None):
+                # SkipRepeatsQueue.put reads _last_item before it takes the queue mutex: for the stop marker that read
+                # is a model step of its own.  No scheduling point between this log entry and the read in opub.
+                if item is marker:
+                    li = q._last_item
+                    s.log("mread", who(), li is not None and not (item != li))
+                return opub(item, block, timeout)
+
+            q.put = put
     env.obs = obs
     env.handlers = [C["Handler"](h) for h in range(prog["nh"])]
     threads = prog.get("threads", [])
@@ -411,6 +424,8 @@ def to_wire(events, fixed=False):
                     out.append([A("ordprefix"), A(e[2]), order])
         elif k == "ret":
             out.append([A("ret"), A(e[2]), [A(e[3][0])] + list(e[3][1:]), b(e[4] is not None)])
+        elif k == "mread":
+            out.append([A(k), A(e[2]), b(e[3])])
         elif k in ("acq", "rel", "dsetflag", "putm"):
             out.append([A(k), A(e[2])])
             if k == "acq" and e[2] in pending_ord:
@@ -779,6 +794,25 @@ def schedules(ctx, prog, rng, n_random, explore_runs=0):
             yield run_program(prog, ds.RandomChooser(rng.randrange(1 << 30), switch_prob=rng.choice([0.15, 0.3, 0.5])))
 
 
+SEARCH_CAP_S = 60.0       # quick tier: the failure search the driver starts after a mismatch / broken proof is cut here
+
+
+def search_time_up(ctx, res):
+    """True once a quick-tier failure search (ctx.search) has used SEARCH_CAP_S seconds over all its campaigns."""
+    if not getattr(ctx, "search", False) or ctx.tier != "quick":
+        return False
+    t0 = getattr(ctx, "_search_t0", None)
+    if t0 is None:
+        ctx._search_t0 = time.time()
+        return False
+    if time.time() - t0 > SEARCH_CAP_S:
+        if not getattr(ctx, "_search_cut_noted", False):
+            ctx._search_cut_noted = True
+            res.notes.append(f"failure search cut after {SEARCH_CAP_S:.0f} s (quick tier)")
+        return True
+    return False
+
+
 def campaign(ctx, res, prop, programs, judge, n_random=3, explore_runs=0, do_lockstep=True, tag=""):
     """Run every program under several schedules; judge(prog, s) -> (list of (law, detail, sigextra), nontrivial key or None)."""
     from harness.core import Failure, Mismatch, digest
@@ -788,7 +822,11 @@ def campaign(ctx, res, prop, programs, judge, n_random=3, explore_runs=0, do_loc
         if len(res.failures) >= 10 or (len(res.mismatches) >= 10 and not getattr(ctx, "search", False)):
             res.notes.append("campaign cut short after 10 failures/mismatches")
             break
+        if search_time_up(ctx, res):
+            break
         for s in schedules(ctx, prog, rng, n_random, explore_runs):
+            if search_time_up(ctx, res):
+                break
             res.evaluations += 1
             bad, key = judge(prog, s)
             if key is not None:
